@@ -192,9 +192,17 @@ def run(tape: Tape, params: dict) -> Outcome:
 
 def _check(world: World, host: AppHost, peer: H2Peer, streams: Dict[int, Dict[str, Any]], snapshot: Dict[str, Any],
            script: Script, out: Outcome) -> None:
-    def bad(rule: str, msg: str, **key: Any) -> None:
-        out.violations.append(Violation(rule, msg, dict(key, worker=world.worker)))
+    # known finding F47: the priority library's tree has been driven into a cycle by the PRIORITY frames of this
+    # run and remove_stream() would never return (the watchdog in World turned that into an exception)
+    cause = "priority-lib-cycle" if world.sim.probes.get("priority.tree_loop") else "other"
 
+    def bad(rule: str, msg: str, **key: Any) -> None:
+        out.violations.append(Violation(rule, msg, dict(key, worker=world.worker, cause=cause)))
+
+    if cause == "priority-lib-cycle":
+        bad("no-spinning", "the send task entered an endless loop inside priority.PriorityTree.remove_stream: the "
+            "PRIORITY frames of this connection left a cycle in the library's dependency tree")
+        return
     if world.result == "spin":
         bad("no-spinning", f"event loop spun without I/O: {world.exception}")
     elif world.result not in ("returned",):
